@@ -407,6 +407,9 @@ bool ManifestParser::ParseEdge(string* err) {
     if (new_end != edge->inputs_.end()) {
       edge->inputs_.erase(new_end, edge->inputs_.end());
       edge->order_only_deps_ -= removed_order_only;
+      // The node must forget that the statement consumed it as well, or it
+      // is no longer a root of the graph (nor a default target).
+      out->RemoveOutEdge(edge);
       if (!quiet_) {
         Warning("phony target '%s' names itself as an input; "
                 "ignoring [-w phonycycle=warn]",
